@@ -74,10 +74,20 @@ def run(ctx, res):
               "shapes": [s for s in sh if not (s["name"] == "oneAnonymous" and c["querySuffix"] == "")
                          and not (s["name"].startswith("sameName") and same_export_name(c))]} for c in cfgs]
     # the loader instance of every second shape has served ANOTHER configuration before (the one half the list away: the options differ)
+    n = len(cases)
     for i, c in enumerate(cases):
-        c["priorConfigText"] = cases[(i + len(cases) // 2 + 1) % len(cases)]["configText"]
-        # every third project was generated once already under that other configuration (same generate mode: same output file names)
-        c["rerunAfterPrior"] = i % 3 == 0 and cases[(i + len(cases) // 2 + 1) % len(cases)]["cfg"]["mode"] == c["cfg"]["mode"]
+        c["priorConfigText"] = cases[(i + n // 2 + 1) % n]["configText"]
+        # every third project was generated once already under ANOTHER configuration of the same generate mode (same output file
+        # names): the nearest one from a quarter of the list away, so that names and export options both differ
+        c["rerunAfterPrior"] = False
+        if i % 3 == 0:
+            for d in range(n):
+                o = cases[(i + n // 4 + 1 + d) % n]
+                if o["cfg"]["mode"] == c["cfg"]["mode"] and o["configText"] != c["configText"]:
+                    c["priorConfigText"], c["rerunAfterPrior"] = o["configText"], True
+                    break
+    if not any(c["rerunAfterPrior"] for c in cases):
+        raise vlib.ToolError("C14: no project is regenerated over the outputs of another configuration (vacuous)")
     vlib.write_ndjson(ctx.path("cases.ndjson"), cases)
     vlib.run_harness(["exports", vlib.CLI_BIN, ctx.path("cases.ndjson"), ctx.path("events.ndjson"), ctx.path("proj"), "12"], timeout=3000)
     events = vlib.read_ndjson(ctx.path("events.ndjson"))
